@@ -17,7 +17,7 @@ pub const ENTRY: Entry = Entry {
     rule: "real Display::set_vertical_scroll_region / set_vertical_scroll_offset through a recording interface, for every built-in \
            framebuffer height (160, 162, 240, 320, 480, 536) and the extreme heights 1 and 65535: quick = (top, bottom) over a \
            boundary lattice^2 (0,1,2,H-1,H,H+1, 65535-H.., 32767/32768, 65534, 65535 and complements) x 8 orientations x 4 refresh orders x 2 colour orders, and on the real SPI (staging buffers of 2..7 bytes) and \
-           parallel transports decoded at pin level; thorough = all 2^32 (top, bottom) pairs per height; all 65536 scroll offsets. Arithmetic oracle in u64 on the decoded VSCRDEF: exactly one \
+           parallel transports decoded at pin level; thorough = all 2^32 (top, bottom) pairs per height; all 65536 scroll offsets, and a lattice of offsets after every fitting region definition (state carried from the region call). Arithmetic oracle in u64 on the decoded VSCRDEF: exactly one \
            0x33 with six parameters, tfa+vsa+bfa == H, tfa == top and bfa == bottom whenever top+bottom <= H, no panic; 0x37 carries the \
            offset big-endian. Run with overflow checks on (wrap = panic) and off (wrap = wrong value). Non-trivial = top+bottom > H or \
            a u16 carry is involved.",
@@ -223,6 +223,39 @@ fn run(ctx: &Ctx) -> Part {
                     }
                     acc.count("scroll_offset_sweeps", 1);
                 }
+                // offsets after a region definition that fits (every fitting lattice pair x offset lattice): the offset
+                // still goes out unchanged, whatever scroll area the display was told about before
+                if lo == hi && (o & 7 == 0 || o == 29) {
+                    let mut offs = lat.clone();
+                    offs.extend_from_slice(&[3, 5, h.saturating_sub(3), h.saturating_sub(5)]);
+                    for &t in &lat {
+                        for &b in &lat {
+                            if t as u32 + b as u32 > h as u32 {
+                                continue;
+                            }
+                            let (out, _) = lean.call(&Op::ScrollRegion(t, b));
+                            if !out.is_ok() {
+                                continue;
+                            }
+                            for &off in &offs {
+                                let op = Op::ScrollOffset(off);
+                                let (out, cmds) = lean.call(&op);
+                                acc.evaluations += 1;
+                                acc.nontrivial += 1;
+                                acc.count("offsets_after_region", 1);
+                                let want = vec![(0x37u8, vec![(off >> 8) as u8, off as u8])];
+                                if !out.is_ok() || cmds != want {
+                                    acc.violation(Violation {
+                                        prop: ctx.prop.clone(),
+                                        sig: "set_vertical_scroll_offset/parameter-after-region".into(),
+                                        msg: format!("height {h}: set_vertical_scroll_region({t}, {b}) then offset {off}: outcome {out:?}, bus {cmds:02x?}, expected {want:02x?}"),
+                                        case: json!({"variant": ctx.variant, "cfg": cfg, "faults": [], "history": [Op::ScrollRegion(t, b), op], "checks": "c16"}),
+                                    });
+                                }
+                            }
+                        }
+                    }
+                }
                 acc.states += 1;
                 acc
             })
@@ -293,6 +326,13 @@ pub fn replay(case: &serde_json::Value) -> i32 {
         if let Op::ScrollRegion(t, b) = op {
             if let Some((sig, msg)) = check_region(h, *t, *b, &out, &cmds) {
                 println!("REPLAY: {sig} -- {msg}");
+                rc = 1;
+            }
+        }
+        if let Op::ScrollOffset(off) = op {
+            let want = vec![(0x37u8, vec![(*off >> 8) as u8, *off as u8])];
+            if !out.is_ok() || cmds != want {
+                println!("REPLAY: set_vertical_scroll_offset/parameter -- expected {want:02x?}");
                 rc = 1;
             }
         }
